@@ -208,6 +208,14 @@ def mon_c15(run, script, il, iab, ml):
     for k, (x, y) in enumerate(zip(a, ml)):
         if x.startswith('#= opmod'):
             run.cov['monitor_checks'] += 1
+            # datasheet check, independent of the model: FSK/OOK RX/TX must program the FSK page
+            op, mod = int(x.split()[2]), int(x.split()[3])
+            call0 = M.fields(a[k - 1])
+            if k + 1 < len(a) and a[k + 1].startswith('chip ') and call0.get('rc') == '0' and mod in (0, 0x20) and op in (3, 5, 6) and '!' not in call0.get('spi', ''):
+                d = M.dump_of(a[k + 1])
+                want35 = 0x9f if op == 3 else 0x1f
+                if d['f'][0x35] != want35 or (op == 3 and d['f'][0x36] != 0x90):
+                    run.violation('set_opmod(%d, 0x%02x) entered from the LoRa register page: RegFifoThresh / RegSeqConfig1 were written into the LoRa page, the FSK page still holds thresh=%02x seq=%02x' % (op, mod, d['f'][0x35], d['f'][0x36]), script, {'call': a[k - 1][:300]})
             # the set_opmod line and the dump that follows
             call, callm = a[k - 1], ml[k - 1]
             if k + 1 < len(a) and a[k + 1].startswith('chip ') and (a[k + 1] != ml[k + 1] or M.fields(call).get('h') != M.fields(callm).get('h') or M.fields(call).get('rc') != M.fields(callm).get('rc')):
